@@ -16,8 +16,9 @@ Step(e) ==
   /\ CASE e.ev = "tx"      -> RecvTx(e.size)
        [] e.ev = "advance" -> Advance(e.ms)
   \* after the step the real BatchMaker must have sealed exactly the batches the specification seals
-  /\ viol' = viol \cup V(e.sealed_so_far = Ids2(sealed'), "C11.SealedExactlyWhenSpecSays")
-                  \cup V(e.panicked = FALSE, "C11.Panicked")
+  \* (a record marked `unsettled` was handed over without letting the batch maker run: nothing to compare yet)
+  /\ viol' = viol \cup (IF "unsettled" \in DOMAIN e /\ e.unsettled THEN {}
+                         ELSE V(e.sealed_so_far = Ids2(sealed'), "C11.SealedExactlyWhenSpecSays") \cup V(e.panicked = FALSE, "C11.Panicked"))
   /\ nsteps' = nsteps + 1
 TNext ==
   /\ l <= Len(Rec) /\ l' = l + 1
